@@ -135,6 +135,9 @@ func c18Gen(cfg config, emit func(Case)) {
 			pool[v] = true
 		}
 	}
+	for _, v := range stubs.EnumDeclared() {
+		pool[v] = true
+	}
 	var tnames []string
 	for t := range tags {
 		tnames = append(tnames, t)
